@@ -29,6 +29,7 @@ from ._helper import (
     INDENTATION,
     NamingConvention,
     _convert_name_to_convention,
+    _convert_path_to_convention,
     _create_name_annotation,
     _escape_string_literal,
     _get_shortest_public_reexport,
@@ -89,7 +90,7 @@ class StubsStringGenerator:
 
                 # Create module header
                 package_info = ".".join(self._get_module_id().split("/")[:-1])
-                package_info_camel_case = _convert_name_to_convention(package_info, self.naming_convention)
+                package_info_camel_case = _convert_path_to_convention(package_info, self.naming_convention)
                 module_name_info = ""
                 if package_info != package_info_camel_case:
                     module_name_info = f'@PythonModule("{package_info}")\n'
@@ -133,7 +134,7 @@ class StubsStringGenerator:
         if not package_info:
             package_info = ".".join(module.id.split("/"))
 
-        package_info_camel_case = _convert_name_to_convention(package_info, self.naming_convention)
+        package_info_camel_case = _convert_path_to_convention(package_info, self.naming_convention)
         module_name_info = ""
         if package_info != package_info_camel_case:
             module_name_info = f'@PythonModule("{package_info}")\n'
@@ -186,7 +187,7 @@ class StubsStringGenerator:
                 continue
 
             from_ = ".".join(import_parts[0:-1])
-            from_ = _convert_name_to_convention(from_, self.naming_convention)
+            from_ = _convert_path_to_convention(from_, self.naming_convention)
             from_ = _replace_if_safeds_keyword_in_path(from_)
 
             name = import_parts[-1]
